@@ -21,6 +21,8 @@ import (
 	"fmt"
 	"io"
 	"strings"
+	"unicode"
+	"unicode/utf16"
 )
 
 type token int
@@ -770,12 +772,41 @@ func (t *tokenizer) readEscapedChar(isClob bool) (rune, error) {
 		if isClob {
 			return 0, t.invalidChar('u')
 		}
-		return t.readHexEscapeSeq(4)
+		r, err := t.readHexEscapeSeq(4)
+		if err != nil {
+			return 0, err
+		}
+		if utf16.IsSurrogate(r) {
+			return t.readLowSurrogate(r)
+		}
+		return r, nil
 	case 'x':
 		return t.readHexEscapeSeq(2)
 	}
 
 	return 0, &SyntaxError{fmt.Sprintf("bad escape sequence '\\%c'", c), t.pos - 2}
+}
+
+// readLowSurrogate is called after a \uHHHH escape that is a UTF-16 high surrogate. The
+// escape must be followed by a low surrogate escape; together they denote one code point.
+func (t *tokenizer) readLowSurrogate(high rune) (rune, error) {
+	cs, err := t.peekN(2)
+	if err == nil && cs[0] == '\\' && cs[1] == 'u' {
+		if _, err = t.read(); err != nil {
+			return 0, err
+		}
+		if _, err = t.read(); err != nil {
+			return 0, err
+		}
+		low, err := t.readHexEscapeSeq(4)
+		if err != nil {
+			return 0, err
+		}
+		if r := utf16.DecodeRune(high, low); r != unicode.ReplacementChar {
+			return r, nil
+		}
+	}
+	return 0, &SyntaxError{fmt.Sprintf("unpaired surrogate escape '\\u%04X'", high), t.pos - 1}
 }
 
 func (t *tokenizer) readHexEscapeSeq(length int) (rune, error) {
